@@ -29,6 +29,10 @@ SOFTWARE, EVEN IF ADVISED OF THE POSSIBILITY OF SUCH DAMAGE.
 
 #include <yara/stopwatch.h>
 
+#ifdef YARA_VERIF
+#include <yara/verif.h>
+#endif
+
 #if defined(_WIN32)
 
 void yr_stopwatch_start(YR_STOPWATCH* sw)
@@ -90,6 +94,13 @@ uint64_t yr_stopwatch_elapsed_ns(YR_STOPWATCH* stopwatch)
 {
   struct timespec ts_stop;
   struct timespec ts_elapsed;
+
+#ifdef YARA_VERIF
+  // H2: virtual clock.
+  yr_verif_clock_queries++;
+  if (yr_verif_clock != NULL)
+    return yr_verif_clock((void*) stopwatch);
+#endif
 
   clock_gettime(CLOCK_MONOTONIC, &ts_stop);
   timespecsub(&ts_stop, &stopwatch->ts_start, &ts_elapsed);
